@@ -292,7 +292,37 @@ def run(tier, seed):
     except Exception as ex:
         rep.violation('P_NoException', {'origin': 're-initialised object', 'exception': type(ex).__name__}, {'exception': repr(ex)}, what='re-initialised scheme object raised %r' % ex)
     traces += adaptive_run_traces(rep, tier)
+    inductive_step(rep, tier)
     return conclude(rep, traces)
+
+
+def inductive_step(rep, tier):
+    """Unbounded levels: Apalache shows that the structural clauses are an inductive invariant of the update rule for ANY pair of index
+    sets of at most N vectors with arbitrary integer levels (spec/apalache/CombiInd<D>.tla); the base case is an INVARIANT of the TLC runs
+    above.  A control mutant (every forward neighbour admitted) must be rejected, otherwise the run is vacuous."""
+    from harness.engine import apalache
+    if not apalache.available():
+        rep.cov['apalache'] = 'apalache-mc not on PATH: inductive step skipped'
+        return
+    runs = []
+    plan = [(1, 5, 300), (2, 6, 900)] + ([(3, 6, 3000)] if tier == 'thorough' else [])
+    for D, N, to in plan:
+        mod = 'CombiInd%d' % D
+        sub = [(r'^N == \d+$', 'N == %d' % N)]
+        for inv in ('IndInv', 'Implied'):
+            r = apalache.check(mod, inv=inv, subst=sub, timeout=to, tag='c01apa')
+            r['N'] = N
+            runs.append(r)
+            if r['outcome'] != 'NoError':
+                raise tlc.TLCError('specification-level failure: %s of %s is not inductive (Apalache)' % (inv, mod))
+    ctl = apalache.check('CombiInd2', subst=[(r'^N == \d+$', 'N == 5'), (r'^Admissible\(v, O\) == .*$', 'Admissible(v, O) == Dims')], timeout=600, tag='c01apa')
+    ctl['control_mutant'] = 'every forward neighbour admitted'
+    runs.append(ctl)
+    if ctl['outcome'] != 'Error':
+        raise tlc.TLCError('vacuous: Apalache accepts the control mutant of CombiInd2')
+    rep.cov['apalache'] = runs
+    rep.assumptions.append('Apalache 0.58 (inductive step of the structural clauses, index sets of <= N vectors, unbounded levels); '
+                           'CombiInd<D>.Update is the tuple form of CombiScheme.Update')
 
 
 def adaptive_run_traces(rep, tier):
